@@ -40,7 +40,7 @@ CLAIMS = {
          "6.C08", "symbolic execution on structured strings + symre (group uniqueness as annotated-language VCs) + T1 loop invariant"),
  "C09": ("proof", "get_splitted_operands on every mix of 1-3 operand forms (quick: 8 representative forms for triples, thorough: all 14) splits exactly at the commas between operands; _process_operand_elem maps each of the forms of the statement to its normal form, components symbolic; parse() preserves number and order (symbolic sequence).",
          "6.C09", "symre split/search on structured strings; POST equality of structured results"),
- "C10": ("proof", "Instruction.stringify / consume_instruction / finalize produce addr::mnemonic,op,...,| records concatenated in order (symbolic fields, symbolic operand sequence); CLEAN: address, mnemonic and every normalised operand form of G contain no ',', '|' or '::'. Unique decodability / injectivity then follows by the (paper) lemma that a grammar whose separators never occur inside fields is uniquely decodable; the thorough tier decodes the real stream back and compares it with the independently decoded listing.",
+ "C10": ("proof", "Instruction.stringify / consume_instruction / finalize produce addr::mnemonic,op,...,| records concatenated in order (symbolic fields, symbolic operand sequence); CLEAN: address, mnemonic and every normalised operand form of G contain no ',', '|' or '::'. Unique decodability / injectivity then follows by the lemma that a grammar whose separators never occur inside fields is uniquely decodable -- machine-checked (Lean 4 + Mathlib, lean/Decodable.lean: decode (encode is) = is for every list of valid records, hence encode is injective); the thorough tier decodes the real stream back and compares it with the independently decoded listing.",
          "6.C10", "POST on the encoder + CLEAN language VCs on the parser's result fields"),
  "C16": ("proof", "Same obligations as C08: in every line shape the padding, byte column, annotation and comment are universally quantified variables that do not occur in the result term (addr, mnemonic, operand token only); label / blank / header / section / elision lines yield no instruction. Scope: listings with a raw-byte column (grammar G); free text that does not contain the keyword data16.",
          "6.C16", "symbolic execution on structured strings: presentation variables absent from the result"),
